@@ -3,7 +3,9 @@
 
 mod c18;
 mod c18_map;
+mod c18_open;
 mod c19;
+mod c19_race;
 mod world;
 
 fn main() {
